@@ -415,6 +415,9 @@ class Gen:
             return r.choice([V(v), ("list", [V(v)]), ("list", [V(v), I(1)])])
         if kind == "map":
             exprs = [elem(vars_[0]), r.choice([I(1), V(vars_[0])])]
+            if r.random() < 0.3:
+                # several elements give the same key: the last one in walk order wins
+                exprs = [CALL("type", V(vars_[0])), V(vars_[0])]
         elif len(vars_) == 2:
             exprs = [("list", [V(vars_[0]), V(vars_[1])])]
         else:
@@ -424,6 +427,11 @@ class Gen:
             v = r.choice(vars_)
             cond = r.choice([("chain", [V(v), I(r.randint(0, 5))], ["!="]), ("notin", V(v), ("lit", ("list", (("int", 1), ("str", "a"))))),
                              B(True), B(False), ("chain", [V(v), NULL], ["is not"])])
+        prefix = []
+        if r.random() < 0.25:
+            # a filter with an effect: it is evaluated once per candidate (per pair in a product), in walk order
+            prefix = [("def", "cnt", I(0)), ("deffn", "tick", [], ("seq", [("opassign", "cnt", "+", I(1)), V("cnt")]))]
+            cond = ("chain", [("bin", "%", CALL("tick"), I(r.choice([2, 3]))), I(r.choice([0, 1]))], [r.choice(["==", "!="])])
         comp = ("comp", kind, exprs, clauses, mode, cond)
         # explicit loop expansion
         accname = "acc"
@@ -440,13 +448,11 @@ class Gen:
         if mode == "single":
             v, what, src = clauses[0]
             loop = for_over(v, what, src, inner)
-            if src[1][0] == "map" and what == "values":
-                multiset = True
+            pass
         elif mode == "product":
             (v0, w0, s0), (v1, w1, s1) = clauses
             loop = for_over(v0, w0, s0, for_over(v1, w1, s1, inner))
-            if (s0[1][0] == "map" and w0 == "values") or (s1[1][0] == "map" and w1 == "values"):
-                multiset = True
+            pass
         else:
             # parallel: walk both in step to the longer length, padding with NULL -- written with indices over
             # the materialised enumerations
@@ -460,8 +466,8 @@ class Gen:
             maxn = ("if", [(("chain", [n0, n1], [">"]), n0)], n1)
             loop = ("seq", [("def", "l0", e0), ("def", "l1", e1),
                             ("for", ["k"], None, CALL("range", maxn), body)])
-        explicit = ("seq", [("def", accname, init), loop, V(accname)])
-        return ("seq", [comp]), explicit, multiset
+        explicit = ("seq", prefix + [("def", accname, init), loop, V(accname)])
+        return ("seq", prefix + [comp]), explicit, multiset
 
     # ------------------------------------------------------------------
     # C05: errors, handlers, finally
@@ -738,6 +744,34 @@ def t_receiver_once(g):
         LOG("ro6", V("turn"))]
 
 
+def t_pipe_into_member(g):
+    """`x !> obj->f(a)` calls the member with x as first argument - the object itself is not passed"""
+    r = g.r
+    a, b = r.randint(1, 9), r.randint(1, 9)
+    return [("def", "ops", ("obj", [("pair", ("fn", [("p", None, False), ("q", I(0), False), ("rest...", None, True)], ("list", [V("p"), V("q"), V("rest...")]))),
+                                     ("one", ("fn", [("p", None, False)], ("list", [V("p")])))])),
+            ("def", "outer", ("obj", [("inner", V("ops"))])),
+            LOG("pm1", ("pipe", I(a), ("member", V("ops"), "pair"), [("pos", I(b))])),
+            LOG("pm2", ("pipe", I(a), ("member", V("ops"), "one"), [])),
+            LOG("pm3", ("pipe", I(a), ("member", ("member", V("outer"), "inner"), "pair"), [("named", "q", I(b))])),
+            LOG("pm4", ("pipe", ("list", [I(a), I(b)]), ("member", V("ops"), "pair"), [("pos", I(1)), ("pos", I(2)), ("pos", I(3))])),
+            ("block", [LOG("pm5", ("pipe", I(a), ("member", V("ops"), "one"), [("pos", I(b))]))], [(None, LOG("pm5.err", S("too many")))], [])]
+
+
+def t_def_in_loop(g):
+    """a def in a loop body binds in the function / top-level scope the loop stands in: visible in later iterations and
+    after the loop"""
+    return [("for", ["i"], None, ("lit", ("list", (("int", 1), ("int", 2), ("int", 3)))), ("seq", [("def", "lastseen", ("bin", "*", V("i"), I(10)))])),
+            LOG("dl1", V("lastseen")),
+            ("for", ["j"], None, ("lit", ("list", (("int", 1), ("int", 2), ("int", 3)))),
+             ("seq", [("if", [(("chain", [V("j"), I(1)], ["=="]), ("def", "accum", I(100)))], ("assign", "accum", ("bin", "+", V("accum"), V("j")))), LOG("dl2", V("accum"))])),
+            LOG("dl3", V("accum")),
+            ("deffn", "inner_loop", [], ("seq", [("for", ["k"], None, ("lit", ("list", (("int", 4), ("int", 5)))), ("seq", [("def", "local_k", V("k"))])), V("local_k")])),
+            LOG("dl4", CALL("inner_loop")),
+            ("block", [LOG("dl5", V("local_k"))], [(None, LOG("dl5.err", S("not visible outside the function")))], []),
+            ("def", "w", I(0)), ("while", ("chain", [V("w"), I(2)], ["<"]), ("seq", [("opassign", "w", "+", I(1)), ("def", "in_while", V("w"))])), LOG("dl6", V("in_while"))]
+
+
 def t_def_in_block(g):
     return [("deffn", "f", [], ("seq", [("block", [("def", "inblock", I(5))], [], [LOG("fin", I(0))]),
                                         ("if", [(B(True), ("seq", [("def", "inbranch", I(6))]))], None),
@@ -778,4 +812,4 @@ def t_higher_order(g):
             LOG("h7", ("comp", "list", [CALL("apply1", ("fn", [("e", None, False)], ("bin", "+", V("e"), V("k"))), V("i"))], [("i", None, ("lit", ("list", (("int", 1), ("int", 2)))))], "single", None))]
 
 
-SCOPE_TEMPLATES = [t_destructuring, t_higher_order, t_counter, t_lexical_vs_dynamic, t_assign_nearest, t_defaults, t_binding, t_methods, t_fresh_frames, t_def_in_block, t_mutable_defaults, t_receiver_once]
+SCOPE_TEMPLATES = [t_destructuring, t_higher_order, t_counter, t_lexical_vs_dynamic, t_assign_nearest, t_defaults, t_binding, t_methods, t_fresh_frames, t_def_in_block, t_mutable_defaults, t_receiver_once, t_pipe_into_member, t_def_in_loop]
